@@ -40,7 +40,8 @@ EXPLANATION = (
     "checkItem/ENUMcanBeProcessed can neither mark an object CANTPROCESS nor the schema UNPROCESSED, hence print_schemas_separate "
     "takes the suffix-0 branch and one module is written. "
     "(R6) the emission sites of one numbered name template (`inherited%i__%s`: formal parameter of __init__ and argument of the parent's __init__) stand under the same schema predicates. Not decided: that the generated text is valid Python beyond identifiers, attribute/constructor argument order in detail, "
-    "select members and enumeration items being complete.")
+    "select members and enumeration items being complete."
+    " (R7) the scheduler of the defined-type classes waits for the type whose name the class-header emitter prints as the base class (same expression of the type on both sides): the emission order is a topological order of the base relation, which Python needs at import.")
 
 WFLAGS = ("-Wno-everything", "-Wimplicit-function-declaration", "-Wint-conversion", "-Wincompatible-pointer-types", "-Wreturn-type")
 GROUPS = ("implicit-function-declaration", "int-conversion", "incompatible-pointer-types", "return-type")
@@ -405,7 +406,88 @@ def r6_same_template_same_filter(prog, res):
     res.floor("R6.same_template_same_filter", "numbered name templates written from several places of one generator function", n, 1)
 
 
+def r7_base_emitted_first(prog, res):
+    """Python executes a module top-down: `class c(b):` needs `b` bound already.  The printer of a defined type takes the base class
+    from an expression H(type) (the declared underlying type); the scheduler that orders the defined types prints a type only when
+    the type G(t) it waits for is marked PROCESSED.  The order is a topological order of the emitted base relation only when G and H
+    are the same expression: waiting for the root of the rename chain instead of the direct underlying type prints `class c(b)` before
+    `class b(a)` for a chain of three."""
+    import clones
+
+    def subst(fn, e, d):
+        # canonical form with the type variable written T (node level: a member that happens to be called like the variable is untouched)
+        return clones._canon(fn, e, {d: "T"})
+
+    def obj_of_name(a):
+        # X->symbol.name  ->  X
+        a = strip(a)
+        while a is not None and a["k"] in ("Cast", "Paren") and a.get("ch"):
+            a = strip(a["ch"][0])
+        if a is not None and a["k"] == "Member" and a.get("n") == "name" and a.get("ch"):
+            b = strip(a["ch"][0])
+            if b is not None and b["k"] == "Member" and b.get("n") == "symbol" and b.get("ch"):
+                return strip(b["ch"][0])
+        return None
+    # emitters: fprintf whose format closes a class header `...):` and whose first name argument is the name of H(param)
+    emit = {}
+    for f in prog.all_functions():
+        if f.component != "exp2python" or not f.params:
+            continue
+        for c in f.calls("fprintf"):
+            a = call_args(c)
+            if len(a) < 3 or strip(a[1]) is None or strip(a[1])["k"] != "Str" or not re.match(r"^%s(%s)?\):\n$", strip(a[1]).get("s") or ""):
+                continue
+            prev = [x for x in f.calls("fprintf") if x["l"] < c["l"] and len(call_args(x)) > 1 and strip(call_args(x)[1]) is not None and
+                    strip(call_args(x)[1])["k"] == "Str" and (strip(call_args(x)[1]).get("s") or "").startswith("class ")]
+            if not prev:
+                continue
+            o = obj_of_name(a[2])
+            if o is None:
+                continue
+            tp = [p_ for p_ in f.params if any(y["k"] == "Ref" and y.get("d") == p_["d"] for y in walk(o))]
+            if len(tp) == 1:
+                emit[f.key] = (f, c, subst(f, o, tp[0]["d"]), f.params.index(tp[0]))
+    res.info["r7_class_header_emitters"] = sorted(v[0].name for v in emit.values())
+    n = 0
+    PROC = None
+    for f in prog.all_functions():
+        if f.component != "exp2python":
+            continue
+        for c in f.calls():
+            if c.get("fk") not in emit:
+                continue
+            ef, ec, H, pi = emit[c["fk"]]
+            targ = strip(call_args(c)[pi]) if len(call_args(c)) > pi else None
+            if targ is None or targ["k"] != "Ref":
+                continue
+            # the guard: <X>->search_id == PROCESSED in an enclosing condition; X assigned from G(t) before
+            from engines import enclosing_conditions
+            waits = []
+            for cond, br in enclosing_conditions(f, c):
+                for y in walk(cond):
+                    if y["k"] == "Binary" and y.get("op") == "==":
+                        l, r = strip(y["ch"][0]), strip(y["ch"][1])
+                        if l is not None and l["k"] == "Member" and l.get("n") == "search_id" and r is not None and r.get("m") == "PROCESSED":
+                            x = strip(l["ch"][0])
+                            if x is not None and x["k"] == "Ref" and x.get("d") != targ.get("d"):
+                                waits.append(x)
+            for x in waits:
+                asg = [a_ for a_ in f.walk() if a_["k"] == "Assign" and strip(a_["ch"][0]) is not None and strip(a_["ch"][0]).get("d") == x["d"] and a_["l"] <= c["l"]]
+                if not asg:
+                    continue
+                G = subst(f, asg[-1]["ch"][1], targ["d"])
+                n += 1
+                ok = G == H
+                res.add("R7.base_emitted_first", "R7|%s|%s|%s" % (f.relfile(), f.name, ef.name), f.where(asg[-1]), ok,
+                        "%s prints a type when `%s` is processed, and %s names `%s` as the base class: the same type" % (f.name, G, ef.name, H) if ok else
+                        "%s prints a defined type as soon as `%s` has been printed, but %s (line %s) names `%s` as its base class: for "
+                        "TYPE a = REAL; TYPE b = a; TYPE c = b; `class c(b)` can be printed before `class b(a)` and the module fails to import "
+                        "with NameError" % (f.name, G, ef.name, ec["l"], H))
+    res.floor("R7.base_emitted_first", "schedulers of class-header emitters", n, 1)
+
+
 def run(prog, res, tier):
+    r7_base_emitted_first(prog, res)
     r6_same_template_same_filter(prog, res)
     r1_decls(res, tier)
     r5_single_pass(prog, res)
